@@ -99,6 +99,9 @@ def _match_display_names_exact(
     for prop in importable_props:
         if prop in display_name_to_key:
             feature_key, idx = display_name_to_key[prop]
+            if feature_key in mapping:
+                # never overwrite a key that was assigned in an earlier step
+                continue
             # Check if this is a multi-value feature (has other indices)
             is_multi_value = any(
                 k == feature_key and i != idx for _, (k, i) in display_name_to_key.items()
@@ -168,6 +171,10 @@ def _match_display_names_fuzzy(
 
         if closest:
             _, feature_key, idx = lower_display_map[closest[0]]
+            if feature_key in mapping or idx in multi_value_matches.get(feature_key, {}):
+                # never overwrite a key (or a position in a multi-value key) that is
+                # already assigned: the property stays available as a custom one
+                continue
             # Check if this is a multi-value feature
             is_multi_value = any(
                 k == feature_key and i != idx for _, (k, i) in display_name_to_key.items()
@@ -299,8 +306,11 @@ def infer_node_name_map(
     props_left = importable_node_properties.copy()
 
     # Pipeline of matching steps
-    # Step 1: Exact matches for standard fields
-    props_left = _match_exact(standard_fields, props_left, mapping)
+    # Step 1: Exact matches for standard fields. A property spelled exactly like a
+    # feature key is also mapped to that key, so that no later step can assign the key
+    # to another property (and the property cannot collide with it as a custom one)
+    exact_fields = standard_fields + [k for k in node_features if k not in standard_fields]
+    props_left = _match_exact(exact_fields, props_left, mapping)
 
     # Step 2: Fuzzy matches for remaining standard fields
     props_left = _match_fuzzy(standard_fields, props_left, mapping)
